@@ -598,7 +598,10 @@ impl IrConfig {
     #[verifier::external_body]
     pub fn try_into_domain_targets(self, roots: &Vec<TargetId>) -> (r: Result<HashMap<TargetId, Target>>)
         ensures r matches Ok(m) ==> forall|id: TargetId| #![trigger m@[id]] m@.contains_key(id) ==> m@[id].meta().id == id,
+            r matches Ok(m) ==> m@ == self.closure_of(roots@),
     { unimplemented!() }
+    /// the resolved map for a list of roots: their dependency closure (CFG: C09.closed / C09.only-reachable)
+    pub uninterp spec fn closure_of(&self, roots: Seq<TargetId>) -> Map<TargetId, Target>;
 }
 /// `TargetId::try_parse_many(requested, &root).unwrap()`: clap only lets through names it was offered, and
 /// every offered name parses (A-clap + C19.parse)
@@ -622,16 +625,20 @@ pub uninterp spec fn parsed_names(names: Seq<String>, root: Option<String>) -> S
         /*[C09.before-effects,C14.before-effects]*/ final(w).deleted != old(w).deleted || final(w).steps.len() > 0 ==> final(w).resolved,
         /*[C10.main-order]*/ final(w).steps.len() > 0 ==> final(w).steps =~= seq![Step::Run, Step::Terminate],
         /*[C07.exit]*/ final(w).run_failed ==> r is Err,
-//@before 0 `let targets = config.try_into_domain_targets(&root_target_ids)?;`
+//@before 0 `let targets = config.try_into_domain_targets(`
     let ghost all0 = config.all_targets();
     let ghost root0 = config.root();
+    let ghost cfg0 = config;
     proof {
         // [C19.roots] what is resolved (and later handed to the engine) is exactly what was asked for: every name
         // given on the command line, parsed with the root project as default, in order; all targets otherwise
         assert(/*[C19.roots]*/ requested_targets matches Some(names) ==> root_target_ids@ == parsed_names(names@, root0));
         assert(/*[C19.roots]*/ requested_targets is None ==> root_target_ids@ == all0);
     }
-//@after 0 `let targets = config.try_into_domain_targets(&root_target_ids)?;`
+//@after 0 `let targets = config.try_into_domain_targets(`
+    // what cleaning and the engine get to see is the dependency closure of exactly the requested roots - not more (C08: no
+    // target outside the closure is cleaned or has its state touched; C12: `--clean T...` = T and its dependencies only)
+    assert(/*[C08.only-closure,C12.scope,C09.closure-used]*/ targets@ == cfg0.closure_of(root_target_ids@));
     proof { w.resolved = true; }
 //@end
 
